@@ -3,7 +3,7 @@ From Coq Require Import List Bool Arith.
 From Coq Require Import Strings.Byte Strings.String.
 From Minidyn Require Import Base.Str Base.FMap Base.Outcome Model.Value Model.Key Model.Index Model.Table Model.Client
   Model.Token Gen.Tables Model.Lexer Model.Parser Model.Object Model.Eval Model.Language.
-From Minidyn Require Import Proofs.Restrictions.
+From Minidyn Require Import Proofs.Restrictions Proofs.BatchAtomic.
 Import ListNotations.
 
 (* the reserved-word table read from the sources: 573 distinct upper-case words (DynamoDB's documented count) *)
@@ -82,3 +82,16 @@ Theorem C16_reserved_word_found_in_every_position :
   forall pre a b post,
     ty a = IDENT -> ty b <> LPAREN -> is_reserved (lit a) = true -> reserved_in_tokens (pre ++ a :: b :: post) = true.
 Proof. exact reserved_in_tokens_spec. Qed.
+
+(* "a request that respects these rules is never rejected on their account", for batches: in any client of any history,
+   with no failure emulated, a batch whose write requests are each a put or a delete (not both, not neither), that holds
+   at most 25 of them, and whose tables exist and keys are valid, is not rejected at all: it succeeds, nothing unprocessed *)
+Theorem C16_wellformed_batch_is_not_rejected :
+  forall lm lu s ops cn c reqs,
+    lookup cn (fst (run lm lu s [] ops)) = Some c ->
+    c_failure c = None -> (forall tn, In tn (keys reqs) -> v1_name_ok s tn = true) ->
+    (s = V1 -> reqs <> []) ->
+    forallb wreq_ok (flat_map snd reqs) = true -> Nat.ltb batch_limit (List.length (flat_map snd reqs)) = false ->
+    flat_map (prevalidate_table c) reqs = [] ->
+    exists c1, batch_write lm s c reqs = (c1, ok_obs (PBatchWrite []) []).
+Proof. exact validated_batch_succeeds_reachable. Qed.
